@@ -2,8 +2,11 @@ package rules
 
 import (
 	"fmt"
+	"go/ast"
 	"go/token"
 	"go/types"
+	"sort"
+	"strings"
 
 	"golang.org/x/tools/go/ssa"
 
@@ -13,8 +16,9 @@ import (
 func init() {
 	register(&Check{
 		ID: "C01", Level: "other", Patterns: []string{"./internal/crypto"},
-		Explain: "Decides, on every CFG path of the SessionKey method that calls cipher.AEAD.Open, that receive state is committed only after authentication succeeded, that rejection paths are side-effect free, that the received nonce's direction byte is compared with the expected receive direction before Open, that a counter below the expected one is rejected and the committed counter is received+1, and that check, Open and commit share one mutex region. AEAD unforgeability is trusted.",
-		Run:     runC01,
+		Explain:   "Decides, over every path of the exported SessionKey method that (through any helpers) reaches cipher.AEAD.Open, evaluated together with its callees over an abstract domain (role and nonce prefix concrete, counters symbolic with one version per critical section): receive state is stored only after Open succeeded, a path that stores never returns an error, a frame carrying the prefix this end itself sends with is never accepted, a frame whose counter is below the expected counter current in the committing critical section is never accepted, and every accepted frame commits received+k (k>=1) in that same critical section. AEAD unforgeability is trusted.",
+		Technique: "path-enumerating abstract evaluation of the SSA (bytes/counters symbolic, versions per lock region)",
+		Run:       runC01,
 		SelfTests: []SelfTest{
 			{Name: "commit before Open", ExpectRule: "C01.R1", Edits: []Edit{
 				{File: "internal/crypto/crypto.go", Old: "\t// Authenticated: advance the expected counter past this message.\n\ts.recvNonce = nonceValue + 1\n", New: ""},
@@ -26,11 +30,18 @@ func init() {
 			{Name: "direction compared on counter bytes only", ExpectRule: "C01.R3", Edits: []Edit{
 				{File: "internal/crypto/crypto.go", Old: "if !bytes.Equal(nonce[:4], expectedNonce[:4]) {", New: "if !bytes.Equal(nonce[1:4], expectedNonce[1:4]) {"},
 			}},
+			{Name: "direction mask on the wrong byte", ExpectRule: "C01.R3", Edits: []Edit{
+				{File: "internal/crypto/crypto.go", Old: "\t\"bytes\"\n", New: ""},
+				{File: "internal/crypto/crypto.go", Old: "if !bytes.Equal(nonce[:4], expectedNonce[:4]) {", New: "if binary.BigEndian.Uint32(nonce[:4])&0x80 != binary.BigEndian.Uint32(expectedNonce[:4])&0x80 {"},
+			}},
 			{Name: "one replay tolerated", ExpectRule: "C01.R4", Edits: []Edit{
 				{File: "internal/crypto/crypto.go", Old: "if nonceValue < s.recvNonce {", New: "if nonceValue+1 < s.recvNonce {"},
 			}},
 			{Name: "counter not advanced past the message", ExpectRule: "C01.R4", Edits: []Edit{
 				{File: "internal/crypto/crypto.go", Old: "s.recvNonce = nonceValue + 1\n", New: "s.recvNonce = nonceValue\n"},
+			}},
+			{Name: "commit dropped", ExpectRule: "C01.R4", Edits: []Edit{
+				{File: "internal/crypto/crypto.go", Old: "\ts.recvNonce = nonceValue + 1\n", New: ""},
 			}},
 			{Name: "commit in a separate critical section after Open", ExpectRule: "C01.R5", Edits: []Edit{
 				{File: "internal/crypto/crypto.go", Old: "\ts.mu.Lock()\n\tdefer s.mu.Unlock()\n\n\t// The direction prefix", New: "\ts.mu.Lock()\n\n\t// The direction prefix"},
@@ -38,11 +49,51 @@ func init() {
 				{File: "internal/crypto/crypto.go", Old: "\t\treturn nil, fmt.Errorf(\"nonce too old: received %d, expected >= %d\", nonceValue, s.recvNonce)\n\t}\n", New: "\t\ts.mu.Unlock()\n\t\treturn nil, fmt.Errorf(\"nonce too old\")\n\t}\n\ts.mu.Unlock()\n"},
 				{File: "internal/crypto/crypto.go", Old: "\t// Authenticated: advance the expected counter past this message.\n\ts.recvNonce = nonceValue + 1\n", New: "\ts.mu.Lock()\n\ts.recvNonce = nonceValue + 1\n\ts.mu.Unlock()\n"},
 			}},
+			{Name: "stale snapshot checked, commit re-checked without rejecting", ExpectRule: "C01.R5", Edits: []Edit{
+				{File: "internal/crypto/crypto.go", Old: "\ts.mu.Lock()\n\tdefer s.mu.Unlock()\n\n\t// The direction prefix", New: "\ts.mu.Lock()\n\tnext := s.recvNonce\n\n\t// The direction prefix"},
+				{File: "internal/crypto/crypto.go", Old: "\texpectedNonce := s.buildRecvNonce()\n", New: "\texpectedNonce := s.buildRecvNonce()\n\ts.mu.Unlock()\n"},
+				{File: "internal/crypto/crypto.go", Old: "\tif nonceValue < s.recvNonce {\n\t\treturn nil, fmt.Errorf(\"nonce too old: received %d, expected >= %d\", nonceValue, s.recvNonce)", New: "\tif nonceValue < next {\n\t\treturn nil, fmt.Errorf(\"nonce too old: received %d, expected >= %d\", nonceValue, next)"},
+				{File: "internal/crypto/crypto.go", Old: "\t// Authenticated: advance the expected counter past this message.\n\ts.recvNonce = nonceValue + 1\n", New: "\ts.mu.Lock()\n\tif nonceValue >= s.recvNonce {\n\t\ts.recvNonce = nonceValue + 1\n\t}\n\ts.mu.Unlock()\n"},
+			}},
 			{Name: "rewrite: direction byte compared by index", Edits: []Edit{
 				{File: "internal/crypto/crypto.go", Old: "if !bytes.Equal(nonce[:4], expectedNonce[:4]) {", New: "if nonce[0] != expectedNonce[0] || !bytes.Equal(nonce[1:4], expectedNonce[1:4]) {"},
 			}},
 			{Name: "rewrite: role consulted directly", Edits: []Edit{
 				{File: "internal/crypto/crypto.go", Old: "if !bytes.Equal(nonce[:4], expectedNonce[:4]) {", New: "if (nonce[0] == 0x80) != s.isInitiator || !bytes.Equal(nonce[1:4], expectedNonce[1:4]) {"},
+			}},
+			{Name: "rewrite: checks extracted into a helper returning the counter", Edits: []Edit{
+				{File: "internal/crypto/crypto.go", Old: "\t\"bytes\"\n", New: ""},
+				{File: "internal/crypto/crypto.go", Old: "\texpectedNonce := s.buildRecvNonce()\n\tif !bytes.Equal(nonce[:4], expectedNonce[:4]) {\n\t\treturn nil, fmt.Errorf(\"nonce direction mismatch\")\n\t}\n", New: "\tnonceValue, err := s.admit(nonce)\n\tif err != nil {\n\t\treturn nil, err\n\t}\n"},
+				{File: "internal/crypto/crypto.go", Old: "\tnonceValue := binary.BigEndian.Uint64(nonce[4:])\n\tif nonceValue < s.recvNonce {\n\t\treturn nil, fmt.Errorf(\"nonce too old: received %d, expected >= %d\", nonceValue, s.recvNonce)\n\t}\n", New: ""},
+				{File: "internal/crypto/crypto.go", Old: "// Key returns a copy of the session key bytes.", New: "func (s *SessionKey) admit(nonce [NonceSize]byte) (uint64, error) {\n\twant := s.buildRecvNonce()\n\tvar a, b [4]byte\n\tcopy(a[:], nonce[:4])\n\tcopy(b[:], want[:4])\n\tif a != b {\n\t\treturn 0, fmt.Errorf(\"nonce direction mismatch\")\n\t}\n\tv := binary.BigEndian.Uint64(nonce[4:])\n\tif s.recvNonce > v {\n\t\treturn 0, fmt.Errorf(\"nonce too old\")\n\t}\n\treturn v, nil\n}\n\n// Key returns a copy of the session key bytes."},
+			}},
+			{Name: "rewrite: nonce taken by slice-to-array conversion, counter read through a ByteOrder value", Edits: []Edit{
+				{File: "internal/crypto/crypto.go", Old: "\tvar nonce [NonceSize]byte\n\tcopy(nonce[:], ciphertext[:NonceSize])\n", New: "\tnonce := [NonceSize]byte(ciphertext[:NonceSize])\n"},
+				{File: "internal/crypto/crypto.go", Old: "nonceValue := binary.BigEndian.Uint64(nonce[4:])", New: "var order binary.ByteOrder = binary.BigEndian\n\tnonceValue := order.Uint64(nonce[4:])"},
+			}},
+			{Name: "rewrite: prefix compared with slices.Equal", Edits: []Edit{
+				{File: "internal/crypto/crypto.go", Old: "\t\"bytes\"\n", New: "\t\"slices\"\n"},
+				{File: "internal/crypto/crypto.go", Old: "if !bytes.Equal(nonce[:4], expectedNonce[:4]) {", New: "if !slices.Equal(nonce[:4], expectedNonce[:4]) {"},
+			}},
+			{Name: "rewrite: role kept as an enum set by the constructor", Edits: []Edit{
+				{File: "internal/crypto/crypto.go", Old: "\tisInitiator bool\n", New: "\tdir uint8 // 0 initiator, 1 responder\n"},
+				{File: "internal/crypto/crypto.go", Old: "\tsk := &SessionKey{\n\t\tisInitiator: isInitiator,\n\t}\n", New: "\tsk := &SessionKey{}\n\tif !isInitiator {\n\t\tsk.dir = 1\n\t}\n"},
+				{File: "internal/crypto/crypto.go", Old: "\tif !s.isInitiator {\n\t\t// Responder sends with high bit set\n\t\tnonce[0] = 0x80\n\t}", New: "\tnonce[0] = s.dir << 7"},
+				{File: "internal/crypto/crypto.go", Old: "\tif s.isInitiator {\n\t\t// Initiator receives from responder (high bit set)\n\t\tnonce[0] = 0x80\n\t}", New: "\tnonce[0] = (1 - s.dir) << 7"},
+			}},
+			{Name: "enum role: receive side expects this end's own direction", ExpectRule: "C01.R3", Edits: []Edit{
+				{File: "internal/crypto/crypto.go", Old: "\tisInitiator bool\n", New: "\tdir uint8 // 0 initiator, 1 responder\n"},
+				{File: "internal/crypto/crypto.go", Old: "\tsk := &SessionKey{\n\t\tisInitiator: isInitiator,\n\t}\n", New: "\tsk := &SessionKey{}\n\tif !isInitiator {\n\t\tsk.dir = 1\n\t}\n"},
+				{File: "internal/crypto/crypto.go", Old: "\tif !s.isInitiator {\n\t\t// Responder sends with high bit set\n\t\tnonce[0] = 0x80\n\t}", New: "\tnonce[0] = s.dir << 7"},
+				{File: "internal/crypto/crypto.go", Old: "\tif s.isInitiator {\n\t\t// Initiator receives from responder (high bit set)\n\t\tnonce[0] = 0x80\n\t}", New: "\tnonce[0] = s.dir << 7"},
+			}},
+			{Name: "rewrite: prefix as uint32, inverted counter test, explicit unlocks", Edits: []Edit{
+				{File: "internal/crypto/crypto.go", Old: "\t\"bytes\"\n", New: ""},
+				{File: "internal/crypto/crypto.go", Old: "\ts.mu.Lock()\n\tdefer s.mu.Unlock()\n\n\t// The direction prefix", New: "\ts.mu.Lock()\n\n\t// The direction prefix"},
+				{File: "internal/crypto/crypto.go", Old: "\tif !bytes.Equal(nonce[:4], expectedNonce[:4]) {\n\t\treturn nil, fmt.Errorf(\"nonce direction mismatch\")", New: "\tif binary.BigEndian.Uint32(nonce[:4]) != uint32(expectedNonce[0])<<24 {\n\t\ts.mu.Unlock()\n\t\treturn nil, fmt.Errorf(\"nonce direction mismatch\")"},
+				{File: "internal/crypto/crypto.go", Old: "\tif nonceValue < s.recvNonce {\n\t\treturn nil, fmt.Errorf(\"nonce too old: received %d, expected >= %d\", nonceValue, s.recvNonce)", New: "\tif next := s.recvNonce; !(nonceValue >= next) {\n\t\ts.mu.Unlock()\n\t\treturn nil, fmt.Errorf(\"nonce too old: received %d, expected >= %d\", nonceValue, next)"},
+				{File: "internal/crypto/crypto.go", Old: "\t\treturn nil, fmt.Errorf(\"create cipher: %w\", err)\n\t}\n\n\tplaintext, err := aead.Open(", New: "\t\ts.mu.Unlock()\n\t\treturn nil, fmt.Errorf(\"create cipher: %w\", err)\n\t}\n\n\tplaintext, err := aead.Open("},
+				{File: "internal/crypto/crypto.go", Old: "\t\treturn nil, fmt.Errorf(\"decrypt: %w\", err)\n\t}\n\n\t// Authenticated: advance the expected counter past this message.\n\ts.recvNonce = nonceValue + 1\n", New: "\t\ts.mu.Unlock()\n\t\treturn nil, fmt.Errorf(\"decrypt: %w\", err)\n\t}\n\n\ts.recvNonce = nonceValue + 1\n\ts.mu.Unlock()\n"},
 			}},
 		},
 	})
@@ -55,12 +106,24 @@ type cryptoCtx struct {
 	fields   map[*types.Var]bool
 	mu       *types.Var
 	isInit   *types.Var
-	decrypt  *ssa.Function
-	encrypt  *ssa.Function
+	keyFld   *types.Var
+	counters map[*types.Var]bool // 64-bit counter fields (uint64 / atomic.Uint64)
+	sendCtr  *types.Var          // the counter written on the sealing path
+	recvCtr  *types.Var          // the counter written on the opening path
+	decrypt  *ssa.Function       // exported entry that (transitively) reaches AEAD.Open
+	encrypt  *ssa.Function       // exported entry that (transitively) reaches AEAD.Seal
 	openCall *ssa.Call
 	sealCall *ssa.Call
 	methods  []*ssa.Function
-	dirIdx   map[int64]uint8 // byte index of the nonce written under a role branch -> bits set there
+	// every entry (normally one each) and the package functions reachable from them
+	sealEntries []*ssa.Function
+	openEntries []*ssa.Function
+	sealPath    map[*ssa.Function]bool
+	openPath    map[*ssa.Function]bool
+	ctor        *ssa.Function // derivation constructor with a bool (role) parameter, if any
+	// instructions/functions evaluated on some explored path of the entries
+	sendCover *sxCoverage
+	recvCover *sxCoverage
 }
 
 func isAEADCall(c ssa.CallInstruction, name string) bool {
@@ -68,101 +131,279 @@ func isAEADCall(c ssa.CallInstruction, name string) bool {
 	return cal.Iface && cal.Pkg == "crypto/cipher" && cal.Recv == "AEAD" && cal.Name == name
 }
 
-func newCryptoCtx(p *kit.Program, r *kit.Report) *cryptoCtx {
-	cx := &cryptoCtx{p: p, fields: map[*types.Var]bool{}, dirIdx: map[int64]uint8{}}
-	cx.sk = p.NamedType("internal/crypto", "SessionKey")
-	if !r.Require(cx.sk != nil, "anchor-unresolved: type internal/crypto.SessionKey") {
-		return nil
-	}
-	for _, f := range kit.StructFields(cx.sk) {
-		cx.fields[f] = true
-		if n, ok := f.Type().(*types.Named); ok && n.Obj().Pkg() != nil && n.Obj().Pkg().Path() == "sync" {
-			cx.mu = f
+// sessionKeyInvolved: fn is a method of SessionKey or takes a (pointer to) SessionKey.
+func sessionKeyInvolved(fn *ssa.Function, sk *types.Named) bool {
+	is := func(t types.Type) bool {
+		if p, ok := t.(*types.Pointer); ok {
+			t = p.Elem()
 		}
-		if b, ok := f.Type().(*types.Basic); ok && b.Kind() == types.Bool {
-			cx.isInit = f
-		}
+		return types.Identical(t, sk)
 	}
-	cx.methods = p.Methods("internal/crypto", "SessionKey")
-	for _, m := range cx.methods {
-		for _, c := range kit.Calls(m) {
-			if isAEADCall(c, "Open") {
-				cx.decrypt = m
-				cx.openCall, _ = c.(*ssa.Call)
-			}
-			if isAEADCall(c, "Seal") {
-				cx.encrypt = m
-				cx.sealCall, _ = c.(*ssa.Call)
-			}
-		}
+	if fn.Signature == nil {
+		return false
 	}
-	r.Require(cx.decrypt != nil && cx.openCall != nil, "anchor-unresolved: SessionKey method calling cipher.AEAD.Open")
-	r.Require(cx.encrypt != nil && cx.sealCall != nil, "anchor-unresolved: SessionKey method calling cipher.AEAD.Seal")
-	r.Require(cx.mu != nil, "anchor-unresolved: sync mutex field of SessionKey")
-	r.Require(cx.isInit != nil, "anchor-unresolved: bool role field of SessionKey")
-	if len(r.Floors) > 0 {
-		return nil
+	if rv := fn.Signature.Recv(); rv != nil && is(rv.Type()) {
+		return true
 	}
-	// direction byte indices: stores into a nonce array element under a branch on the role field
-	for _, m := range cx.methods {
-		kit.Instrs(m, func(in ssa.Instruction) {
-			st, ok := in.(*ssa.Store)
-			if !ok {
-				return
-			}
-			ia, ok := st.Addr.(*ssa.IndexAddr)
-			if !ok {
-				return
-			}
-			idx, ok := kit.ConstInt(ia.Index)
-			if !ok {
-				return
-			}
-			for _, g := range kit.GuardsOf(in) {
-				if cx.readsField(g.Cond, cx.isInit) {
-					v, _ := kit.ConstInt(st.Val)
-					if v == 0 {
-						v = 0xff
-					}
-					cx.dirIdx[idx] |= uint8(v)
-				}
-			}
-		})
-	}
-	r.Require(len(cx.dirIdx) > 0, "anchor-unresolved: no nonce byte is written under a branch on the role field")
-	return cx
-}
-
-// readsField: the expression tree of v contains a load of field f.
-func (cx *cryptoCtx) readsField(v ssa.Value, f *types.Var) bool {
-	_, leaves := kit.ExprReads(v)
-	for _, l := range leaves {
-		if lf, _ := kit.LoadedField(l); lf == f {
+	for i := 0; i < fn.Signature.Params().Len(); i++ {
+		if is(fn.Signature.Params().At(i).Type()) {
 			return true
 		}
 	}
 	return false
 }
 
-// methodReads: method m (a SessionKey method) loads field f somewhere.
-func (cx *cryptoCtx) methodReads(m *ssa.Function, f *types.Var) bool {
-	found := false
-	kit.Instrs(m, func(in ssa.Instruction) {
-		if v, ok := in.(ssa.Value); ok {
-			if lf, _ := kit.LoadedField(v); lf == f {
-				found = true
+// aeadEntries resolves, by role, the entry functions of internal/crypto for one AEAD
+// operation ("Seal"/"Open"): functions involving SessionKey that reach the operation through
+// static calls inside the package and that are exported or have no caller inside the package.
+// It also returns the set of package functions reachable from the entries and the first call
+// to the operation found.
+func aeadEntries(p *kit.Program, sk *types.Named, op string) (entries []*ssa.Function, path map[*ssa.Function]bool, site *ssa.Call) {
+	pkg := kit.PkgPath("internal/crypto")
+	callees := func(f *ssa.Function) []*ssa.Function {
+		var out []*ssa.Function
+		for _, g := range kit.WithClosures(f) {
+			for _, c := range kit.Calls(g) {
+				if s := kit.CalleeOf(c).Static; s != nil && len(s.Blocks) > 0 && kit.FuncPkgPath(s) == pkg {
+					out = append(out, kit.TopLevel(s))
+				}
 			}
-			// the field's address handed to sync/atomic counts as a read as well
-			if fa, ok := v.(*ssa.FieldAddr); ok && kit.FieldOfAddr(fa) == f && fa.Referrers() != nil {
-				for _, ref := range *fa.Referrers() {
-					if c, ok := ref.(ssa.CallInstruction); ok && kit.CalleeOf(c).Pkg == "sync/atomic" {
-						found = true
+		}
+		return out
+	}
+	direct := func(f *ssa.Function) *ssa.Call {
+		for _, g := range kit.WithClosures(f) {
+			for _, c := range kit.Calls(g) {
+				if isAEADCall(c, op) {
+					if cc, ok := c.(*ssa.Call); ok {
+						return cc
 					}
 				}
 			}
 		}
+		return nil
+	}
+	memo := map[*ssa.Function]int{} // 1 reaches, 2 does not, 3 in progress
+	var reaches func(f *ssa.Function) bool
+	reaches = func(f *ssa.Function) bool {
+		switch memo[f] {
+		case 1:
+			return true
+		case 2, 3:
+			return false
+		}
+		memo[f] = 3
+		ok := direct(f) != nil
+		for _, g := range callees(f) {
+			if reaches(g) {
+				ok = true
+			}
+		}
+		if ok {
+			memo[f] = 1
+		} else {
+			memo[f] = 2
+		}
+		return ok
+	}
+	var tops []*ssa.Function
+	for _, f := range p.FuncsInPkg("internal/crypto") {
+		if f.Parent() == nil {
+			tops = append(tops, f)
+		}
+	}
+	for _, f := range tops {
+		if !sessionKeyInvolved(f, sk) || !reaches(f) {
+			continue
+		}
+		inPkgCallers := 0
+		for _, c := range p.StaticCallers(f) {
+			if kit.FuncPkgPath(c.Parent()) == pkg && kit.TopLevel(c.Parent()) != f {
+				inPkgCallers++
+			}
+		}
+		if ast.IsExported(f.Name()) || inPkgCallers == 0 {
+			entries = append(entries, f)
+		}
+	}
+	sort.Slice(entries, func(i, j int) bool {
+		// exported methods first, then by position
+		ei, ej := ast.IsExported(entries[i].Name()), ast.IsExported(entries[j].Name())
+		if ei != ej {
+			return ei
+		}
+		return entries[i].Pos() < entries[j].Pos()
 	})
-	return found
+	path = map[*ssa.Function]bool{}
+	var walk func(f *ssa.Function)
+	walk = func(f *ssa.Function) {
+		if path[f] {
+			return
+		}
+		path[f] = true
+		if site == nil && reaches(f) {
+			site = direct(f)
+		}
+		for _, g := range callees(f) {
+			walk(g)
+		}
+	}
+	for _, e := range entries {
+		walk(e)
+	}
+	return
+}
+
+// sessionSealEntry resolves "the SessionKey method that seals" by role: the exported function
+// of internal/crypto involving SessionKey that reaches cipher.AEAD.Seal directly or through
+// helpers of the package (nil if there is none). Usable by other rule sets as an anchor.
+func sessionSealEntry(p *kit.Program) *ssa.Function {
+	sk := p.NamedType("internal/crypto", "SessionKey")
+	if sk == nil {
+		return nil
+	}
+	entries, _, _ := aeadEntries(p, sk, "Seal")
+	if len(entries) == 0 {
+		return nil
+	}
+	return entries[0]
+}
+
+func sxIsCounterType(t types.Type) bool {
+	t = types.Unalias(t)
+	if n, ok := t.(*types.Named); ok {
+		return n.Obj().Pkg() != nil && n.Obj().Pkg().Path() == "sync/atomic" && (n.Obj().Name() == "Uint64" || n.Obj().Name() == "Int64")
+	}
+	b, ok := t.(*types.Basic)
+	return ok && b.Kind() == types.Uint64
+}
+
+func newCryptoCtx(p *kit.Program, r *kit.Report) *cryptoCtx {
+	cx := &cryptoCtx{p: p, fields: map[*types.Var]bool{}, counters: map[*types.Var]bool{}}
+	cx.sk = p.NamedType("internal/crypto", "SessionKey")
+	if !r.Require(cx.sk != nil, "anchor-unresolved: type internal/crypto.SessionKey") {
+		return nil
+	}
+	if _, ok := cx.sk.Underlying().(*types.Struct); !r.Require(ok, "anchor-unresolved: internal/crypto.SessionKey is not a struct") {
+		return nil
+	}
+	var bools []*types.Var
+	for _, f := range kit.StructFields(cx.sk) {
+		cx.fields[f] = true
+		if n, ok := f.Type().(*types.Named); ok && n.Obj().Pkg() != nil && n.Obj().Pkg().Path() == "sync" && (n.Obj().Name() == "Mutex" || n.Obj().Name() == "RWMutex") && cx.mu == nil {
+			cx.mu = f
+		}
+		if b, ok := f.Type().(*types.Basic); ok && b.Kind() == types.Bool {
+			bools = append(bools, f)
+		}
+		if a, ok := f.Type().Underlying().(*types.Array); ok && a.Len() == 32 && cx.keyFld == nil {
+			cx.keyFld = f
+		}
+		if sxIsCounterType(f.Type()) {
+			cx.counters[f] = true
+		}
+	}
+	cx.methods = p.Methods("internal/crypto", "SessionKey")
+	cx.sealEntries, cx.sealPath, cx.sealCall = aeadEntries(p, cx.sk, "Seal")
+	cx.openEntries, cx.openPath, cx.openCall = aeadEntries(p, cx.sk, "Open")
+	if len(cx.sealEntries) > 0 {
+		cx.encrypt = cx.sealEntries[0]
+	}
+	if len(cx.openEntries) > 0 {
+		cx.decrypt = cx.openEntries[0]
+	}
+	// the role field: the bool field consulted on the sealing path
+	for _, f := range bools {
+		for _, acc := range p.FieldAccessesOfKind(f, kit.FieldLoad) {
+			if cx.sealPath[kit.TopLevel(acc.Fn)] && cx.isInit == nil {
+				cx.isInit = f
+			}
+		}
+	}
+	if cx.isInit == nil && len(bools) > 0 {
+		cx.isInit = bools[0]
+	}
+	// the derivation constructor: returns *SessionKey, allocates it, has a bool parameter
+	for _, f := range p.FuncsInPkg("internal/crypto") {
+		if f.Parent() != nil || f.Signature == nil || f.Signature.Recv() != nil || cx.ctor != nil {
+			continue
+		}
+		retSK, hasBool := false, false
+		for i := 0; i < f.Signature.Results().Len(); i++ {
+			if pt, ok := f.Signature.Results().At(i).Type().(*types.Pointer); ok && types.Identical(pt.Elem(), cx.sk) {
+				retSK = true
+			}
+		}
+		for i := 0; i < f.Signature.Params().Len(); i++ {
+			if b, ok := f.Signature.Params().At(i).Type().Underlying().(*types.Basic); ok && b.Kind() == types.Bool {
+				hasBool = true
+			}
+		}
+		if retSK && hasBool && c02IsDerivation(p, f, 0) {
+			cx.ctor = f
+		}
+	}
+	r.Require(cx.decrypt != nil && cx.openCall != nil, "anchor-unresolved: SessionKey method calling cipher.AEAD.Open")
+	r.Require(cx.encrypt != nil && cx.sealCall != nil, "anchor-unresolved: SessionKey method calling cipher.AEAD.Seal")
+	r.Require(cx.mu != nil, "anchor-unresolved: sync mutex field of SessionKey")
+	r.Require(cx.isInit != nil || cx.ctor != nil, "anchor-unresolved: neither a bool role field of SessionKey nor a derivation constructor with a bool (role) parameter")
+	if len(r.Floors) > 0 {
+		return nil
+	}
+	// counters by role: written on the sealing path / on the opening path
+	written := func(f *types.Var, path map[*ssa.Function]bool) bool {
+		for _, acc := range p.FieldAccessesOfKind(f, kit.FieldStore, kit.FieldAddrUse) {
+			if path[kit.TopLevel(acc.Fn)] {
+				return true
+			}
+		}
+		return false
+	}
+	for _, f := range kit.StructFields(cx.sk) {
+		if !cx.counters[f] {
+			continue
+		}
+		ws, wr := written(f, cx.sealPath), written(f, cx.openPath)
+		if ws && !wr && cx.sendCtr == nil {
+			cx.sendCtr = f
+		}
+		if wr && !ws && cx.recvCtr == nil {
+			cx.recvCtr = f
+		}
+	}
+	for _, f := range kit.StructFields(cx.sk) {
+		if !cx.counters[f] {
+			continue
+		}
+		if cx.sendCtr == nil && written(f, cx.sealPath) {
+			cx.sendCtr = f
+		}
+		if cx.recvCtr == nil && written(f, cx.openPath) {
+			cx.recvCtr = f
+		}
+	}
+	return cx
+}
+
+// configFields: the fields (other than counters, key and mutex) that the sealing/opening paths
+// read: the role and whatever the constructor precomputes from it.
+func (cx *cryptoCtx) configFields() []*types.Var {
+	var out []*types.Var
+	for _, f := range kit.StructFields(cx.sk) {
+		if cx.counters[f] || f == cx.mu || f == cx.keyFld {
+			continue
+		}
+		read := false
+		for _, acc := range cx.p.FieldAccessesOfKind(f, kit.FieldLoad, kit.FieldAddrUse) {
+			if top := kit.TopLevel(acc.Fn); cx.sealPath[top] || cx.openPath[top] {
+				read = true
+			}
+		}
+		if read {
+			out = append(out, f)
+		}
+	}
+	return out
 }
 
 func (cx *cryptoCtx) isSKMethod(f *ssa.Function) bool {
@@ -174,288 +415,479 @@ func (cx *cryptoCtx) isSKMethod(f *ssa.Function) bool {
 	return false
 }
 
-// skFieldStores lists stores to SessionKey fields in fn and, one level deep, in SessionKey
-// methods fn calls.
-func (cx *cryptoCtx) skFieldStores(fn *ssa.Function) (direct []*ssa.Store, viaCall map[ssa.CallInstruction][]*ssa.Store) {
-	viaCall = map[ssa.CallInstruction][]*ssa.Store{}
-	collect := func(f *ssa.Function) []*ssa.Store {
-		var out []*ssa.Store
-		kit.Instrs(f, func(in ssa.Instruction) {
-			if st, ok := in.(*ssa.Store); ok {
-				if fa, ok := st.Addr.(*ssa.FieldAddr); ok && cx.fields[kit.FieldOfAddr(fa)] {
-					out = append(out, st)
-				}
-			}
-		})
-		return out
+// ---------- worlds ----------
+
+// sxLayout is the nonce the send path hands to Seal for one role: per byte a constant or a
+// byte of the claimed counter value.
+type sxLayout struct {
+	ok    bool
+	bytes []sxByte // sbConc or sbPart (k = significance index); sym is nil
+}
+
+func (l sxLayout) String() string {
+	var sb strings.Builder
+	for i, b := range l.bytes {
+		if i > 0 {
+			sb.WriteByte(' ')
+		}
+		switch b.kind {
+		case sbConc:
+			fmt.Fprintf(&sb, "%02x", b.c)
+		case sbPart:
+			fmt.Fprintf(&sb, "c%d", b.k)
+		default:
+			sb.WriteString("??")
+		}
 	}
-	direct = collect(fn)
-	for _, c := range kit.Calls(fn) {
-		if cal := kit.CalleeOf(c); cal.Static != nil && cx.isSKMethod(cal.Static) && cal.Static != fn {
-			if s := collect(cal.Static); len(s) > 0 {
-				viaCall[c] = s
+	return sb.String()
+}
+
+func (l sxLayout) equal(o sxLayout) bool {
+	if len(l.bytes) != len(o.bytes) {
+		return false
+	}
+	for i := range l.bytes {
+		a, b := l.bytes[i], o.bytes[i]
+		if a.kind != b.kind || a.c != b.c || a.k != b.k {
+			return false
+		}
+	}
+	return true
+}
+
+// sendRun is the exploration of one sealing entry for one role.
+type sendRun struct {
+	role       bool
+	paths      []*sxPath
+	incomplete string
+}
+
+// entryArgs builds the arguments of an entry: the receiver / SessionKey parameters point to
+// the session object, the first []byte parameter is data, everything else is unknown.
+func (cx *cryptoCtx) entryArgs(m *sxMachine, entry *ssa.Function, role bool, data func() sxVal) ([]sxVal, bool) {
+	recv, ok := m.newReceiver(role)
+	if !ok {
+		return nil, false
+	}
+	args := make([]sxVal, len(entry.Params))
+	usedData := false
+	for i, prm := range entry.Params {
+		t := prm.Type()
+		if pt, ok := t.(*types.Pointer); ok && types.Identical(pt.Elem(), cx.sk) {
+			args[i] = recv
+			continue
+		}
+		if st, ok := t.Underlying().(*types.Slice); ok && sxIsByteType(st.Elem()) && !usedData {
+			args[i] = data()
+			usedData = true
+		}
+	}
+	return args, true
+}
+
+func (cx *cryptoCtx) exploreSend(entry *ssa.Function, cover *sxCoverage) []*sendRun {
+	var out []*sendRun
+	for _, role := range []bool{true, false} {
+		role := role
+		run := &sendRun{role: role}
+		run.paths, run.incomplete = cx.explore(entry, cover, nil, func(m *sxMachine) ([]sxVal, bool) {
+			return cx.entryArgs(m, entry, role, func() sxVal { return m.openBytes(nil) })
+		})
+		out = append(out, run)
+	}
+	return out
+}
+
+// sealLayout extracts the nonce layout of a Seal event.
+func sealLayout(ev sxEvent) sxLayout {
+	if ev.nonce == nil {
+		return sxLayout{}
+	}
+	l := sxLayout{ok: true}
+	for _, b := range ev.nonce {
+		nb := sxByte{kind: b.kind, c: b.c, k: b.k}
+		if b.kind == sbUnknown {
+			l.ok = false
+		}
+		l.bytes = append(l.bytes, nb)
+	}
+	return l
+}
+
+// sendLayout: the nonce layout of a role, when every sealing path of the role agrees on it.
+func sendLayout(run *sendRun) (sxLayout, string) {
+	var have *sxLayout
+	for _, pt := range run.paths {
+		for _, ev := range pt.events {
+			if ev.kind != seSeal {
+				continue
+			}
+			l := sealLayout(ev)
+			if !l.ok {
+				return sxLayout{}, "a byte of the nonce handed to Seal is neither a constant nor a byte of the claimed counter"
+			}
+			if have == nil {
+				have = &l
+			} else if !have.equal(l) {
+				return sxLayout{}, "the nonce layout differs between paths of one role (" + have.String() + " / " + l.String() + ")"
 			}
 		}
 	}
-	return
+	if have == nil {
+		return sxLayout{}, "no path of the sealing entry reaches Seal"
+	}
+	return *have, ""
+}
+
+type recvWorld struct {
+	role bool
+	kind string // "own": the prefix this end sends with (a reflected frame); "peer"; "garbage"
+	run  []*sxPath
+	inc  string
+}
+
+func (cx *cryptoCtx) exploreRecv(entry *ssa.Function, cover *sxCoverage, layouts map[bool]sxLayout) []*recvWorld {
+	var out []*recvWorld
+	for _, role := range []bool{true, false} {
+		for _, kind := range []string{"own", "peer", "garbage"} {
+			role, kind := role, kind
+			w := &recvWorld{role: role, kind: kind}
+			w.run, w.inc = cx.explore(entry, cover, cx.recvCtr, func(m *sxMachine) ([]sxVal, bool) {
+				var wire []sxByte
+				src := layouts[role]
+				if kind == "peer" {
+					src = layouts[!role]
+				}
+				for _, b := range src.bytes {
+					switch {
+					case kind == "garbage":
+						wire = append(wire, sxByte{})
+					case b.kind == sbPart:
+						wire = append(wire, sxByte{kind: sbPart, sym: m.wire, k: b.k})
+					default:
+						wire = append(wire, b)
+					}
+				}
+				return cx.entryArgs(m, entry, role, func() sxVal { return m.openBytes(wire) })
+			})
+			out = append(out, w)
+		}
+	}
+	return out
+}
+
+// storeKey names a store instruction by construct: function, field role and ordinal of the
+// store among the stores to SessionKey fields in that function.
+func (cx *cryptoCtx) storeKey(in ssa.Instruction, f *types.Var) string {
+	fn := in.Parent()
+	ord, n := 0, 0
+	kit.Instrs(fn, func(x ssa.Instruction) {
+		isStore := false
+		switch s := x.(type) {
+		case *ssa.Store:
+			if fa, ok := s.Addr.(*ssa.FieldAddr); ok && kit.FieldOfAddr(fa) == f {
+				isStore = true
+			}
+		case ssa.CallInstruction:
+			for _, a := range s.Common().Args {
+				if fa, ok := a.(*ssa.FieldAddr); ok && kit.FieldOfAddr(fa) == f {
+					isStore = true
+				}
+			}
+		}
+		if isStore || x == in {
+			n++
+			if x == in {
+				ord = n
+			}
+		}
+	})
+	return fmt.Sprintf("%s store %s #%d", kit.FuncName(fn), cx.fieldRole(f), ord)
+}
+
+// fieldRole names a SessionKey field by role (stable under renaming).
+func (cx *cryptoCtx) fieldRole(f *types.Var) string {
+	switch f {
+	case cx.recvCtr:
+		return "receive counter"
+	case cx.sendCtr:
+		return "send counter"
+	case cx.isInit:
+		return "role"
+	case nil:
+		return "field"
+	case cx.keyFld:
+		return "key"
+	case cx.mu:
+		return "mutex"
+	}
+	return "field " + f.Name()
 }
 
 func runC01(p *kit.Program, r *kit.Report) {
-	r.Rule("C01.R1", "every store to a SessionKey field on the receive path is dominated by the err==nil edge of cipher.AEAD.Open (commit after authentication)")
-	r.Rule("C01.R2", "no return of a non-nil error is reachable after a store to a SessionKey field (rejection is side-effect free)")
-	r.Rule("C01.R3", "a guard dominating Open compares the direction byte of the received nonce with the expected receive direction (role field) and rejects on mismatch")
-	r.Rule("C01.R4", "a guard dominating Open rejects a received counter below the expected counter; the committed counter is received+k, k>=1")
-	r.Rule("C01.R5", "the expected-counter read, Open and the commit lie in one region of the SessionKey mutex")
+	r.Rule("C01.R1", "every store to a SessionKey field on the receive path happens after cipher.AEAD.Open returned a nil error on that path, and a frame is accepted only after such an Open (commit after authentication)")
+	r.Rule("C01.R2", "no path that stores to a SessionKey field returns a non-nil error (rejection is side-effect free)")
+	r.Rule("C01.R3", "a frame carrying the nonce prefix this end itself sends with is never accepted, whatever its counter (the direction bits of the received nonce are bound to the role)")
+	r.Rule("C01.R4", "a frame whose counter is below the expected counter is never accepted; every accepted frame commits received+k, k>=1, to the expected counter, which has no other writer")
+	r.Rule("C01.R5", "the comparison that admits the frame reads the expected counter in the critical section (session mutex held exclusively) in which the commit is stored")
 	cx := newCryptoCtx(p, r)
 	if cx == nil {
 		return
 	}
-	fn := cx.decrypt
-	open := cx.openCall
-	errOpen := kit.ErrResultOf(open)
-	r.Count("functions_analysed", 1+len(cx.methods))
-	fname := kit.FuncName(fn)
-
-	// ---- R1 / R2
-	direct, via := cx.skFieldStores(fn)
-	type site struct {
-		in    ssa.Instruction
-		field string
-		val   ssa.Value
-		fld   *types.Var
-	}
-	var sites []site
-	for _, st := range direct {
-		f := kit.FieldOfAddr(st.Addr.(*ssa.FieldAddr))
-		sites = append(sites, site{st, f.Name(), st.Val, f})
-	}
-	for c, ss := range via {
-		for _, st := range ss {
-			f := kit.FieldOfAddr(st.Addr.(*ssa.FieldAddr))
-			sites = append(sites, site{c, f.Name() + " via " + kit.CalleeOf(c).Name, nil, f})
-		}
-	}
-	r.Count("session_state_stores_on_receive_path", len(sites))
-	ord := map[string]int{}
-	var commitStores []site
-	for _, s := range sites {
-		ord[s.field]++
-		key := fmt.Sprintf("%s store %s #%d", fname, s.field, ord[s.field])
-		pos := p.Pos(s.in.Pos())
-		ok := errOpen != nil && kit.Precedes(open, s.in) && kit.ErrNilOn(kit.GuardsOf(s.in), errOpen)
-		r.Decide(ok, "C01.R1", key, pos,
-			"store happens only on the err==nil edge of AEAD.Open",
-			"receive state is modified before/without successful AEAD.Open: a forged frame changes what is accepted afterwards")
-		// R2
-		bad := ""
-		for _, ret := range kit.Returns(fn) {
-			if !kit.CanReach(s.in, ret) {
-				continue
-			}
-			if ret.Block() == fn.Recover {
-				continue // panic recovery exit, not a rejection path
-			}
-			if !kit.ReturnsNilError(ret) {
-				bad = p.Pos(ret.Pos())
-			}
-		}
-		r.Decide(bad == "", "C01.R2", key, pos, "every return reachable after the store returns a nil error",
-			"an error return at "+bad+" is reachable after this store (rejected input leaves a side effect)")
-		commitStores = append(commitStores, s)
-	}
-
-	// ---- classify buffers in Decrypt
-	var param ssa.Value
-	if len(fn.Params) >= 2 {
-		param = fn.Params[1]
-	}
-	received := map[ssa.Value]bool{}
-	expected := map[ssa.Value]bool{}
-	if param != nil {
-		received[param] = true
-	}
-	kit.Instrs(fn, func(in ssa.Instruction) {
-		switch x := in.(type) {
-		case ssa.CallInstruction:
-			if kit.CalleeOf(x).Built == "copy" {
-				args := x.Common().Args
-				dst, ok1 := kit.AddrRange(args[0])
-				src, ok2 := kit.AddrRange(args[1])
-				if ok1 && ok2 && src.Root == param && src.Lo == 0 {
-					received[dst.Root] = true
-				}
-			}
-		case *ssa.Store:
-			if a, ok := x.Addr.(*ssa.Alloc); ok {
-				if c, _, ok := kit.ResultOf(x.Val); ok {
-					if cal := kit.CalleeOf(c); cal.Static != nil && cx.isSKMethod(cal.Static) && cx.methodReads(cal.Static, cx.isInit) {
-						expected[a] = true
-					}
-				}
-			}
-		}
-	})
-	guards := kit.GuardsOf(open)
-	r.Count("guards_dominating_open", len(guards))
-
-	// ---- R3 direction
-	dirOK, dirDetail := false, "no guard dominating AEAD.Open relates the received nonce's direction byte to the role field"
-	for _, g := range guards {
-		deps := kit.BitDepsOf(g.Cond)
-		recvCover, expCover := false, false
-		isRecv := func(v ssa.Value) bool { return received[v] }
-		isExp := func(v ssa.Value) bool { return expected[v] }
-		for idx, mask := range cx.dirIdx {
-			if deps.DependsOnBits(isRecv, idx, mask) {
-				recvCover = true
-			}
-			if deps.DependsOnBits(isExp, idx, mask) {
-				expCover = true
-			}
-		}
-		for _, l := range deps.Leaves {
-			if lf, _ := kit.LoadedField(l); lf == cx.isInit {
-				expCover = true
-			}
-			if c, ok := l.(*ssa.Call); ok {
-				if cal := kit.CalleeOf(c); cal.Static != nil && cx.isSKMethod(cal.Static) && cx.methodReads(cal.Static, cx.isInit) {
-					expCover = true
-				}
-			}
-		}
-		if recvCover && expCover {
-			// polarity: the edge leading to Open must be the "equal" one when decidable
-			if eq, known := equalityPolarity(g.Cond); known && eq != g.Polarity {
-				dirDetail = "direction comparison at " + p.Pos(g.If.Pos()) + " proceeds to Open on the mismatch edge"
-				continue
-			}
-			dirOK, dirDetail = true, "direction compared at "+p.Pos(g.If.Pos())
-			break
-		}
-	}
-	r.Decide(dirOK, "C01.R3", fname+" direction guard", p.Pos(open.Pos()), dirDetail,
-		dirDetail+": a frame reflected back to its sender authenticates (same key, own send nonce) and is accepted")
-
-	// ---- R4 freshness + R5 region
-	var recvNonceFld *types.Var
-	for _, s := range commitStores {
-		if b, ok := s.fld.Type().(*types.Basic); ok && b.Kind() == types.Uint64 {
-			recvNonceFld = s.fld
-		}
-	}
-	if recvNonceFld == nil {
-		r.Violation("C01.R4", fname+" counter commit", p.Pos(fn.Pos()), "the receive path never advances a uint64 counter field: every authenticated frame can be replayed")
-		return
-	}
-	freshOK, freshDetail := false, "no guard dominating AEAD.Open rejects a received counter below the expected counter ("+recvNonceFld.Name()+")"
-	var expInstr ssa.Instruction
-	var recvCounter ssa.Value
-	lastIdx := int64(11)
-	for _, g := range guards {
-		b, ok := g.Cond.(*ssa.BinOp)
-		if !ok {
-			continue
-		}
-		switch b.Op {
-		case token.LSS, token.LEQ, token.GTR, token.GEQ:
-		default:
-			continue
-		}
-		side := func(v ssa.Value) (isRecv, isExp bool, ei ssa.Instruction) {
-			ranges, leaves := kit.ExprReads(v)
-			for _, rg := range ranges {
-				if received[rg.Root] && rg.Covers(lastIdx) {
-					isRecv = true
-				}
-				if expected[rg.Root] && rg.Covers(lastIdx) {
-					// expected nonce built by a method that reads the counter field
-					isExp = true
-					kit.Instrs(fn, func(in ssa.Instruction) {
-						if st, ok := in.(*ssa.Store); ok && st.Addr == rg.Root {
-							if c, _, ok := kit.ResultOf(st.Val); ok {
-								if cal := kit.CalleeOf(c); cal.Static != nil && cx.methodReads(cal.Static, recvNonceFld) {
-									ei = c
-								}
-							}
-						}
-					})
-					if ei == nil {
-						isExp = false
-					}
-				}
-			}
-			for _, l := range leaves {
-				if lf, _ := kit.LoadedField(l); lf == recvNonceFld {
-					isExp = true
-					ei = l.(ssa.Instruction)
-				}
-			}
+	// the send side gives the nonce prefixes of the two roles
+	sendCover := newSxCoverage()
+	layouts := map[bool]sxLayout{}
+	for _, run := range cx.exploreSend(cx.encrypt, sendCover) {
+		l, why := sendLayout(run)
+		if !r.Require(why == "" && run.incomplete == "", "anchor-unresolved: nonce layout of the sending role initiator=%v is not determined: %s %s", run.role, why, run.incomplete) {
 			return
 		}
-		xr, xe, xi := side(b.X)
-		yr, ye, yi := side(b.Y)
-		// the received side must be the counter itself, not an arithmetic adjustment of it
-		if _, arith := b.X.(*ssa.BinOp); arith && xr {
-			continue
-		}
-		if _, arith := b.Y.(*ssa.BinOp); arith && yr {
-			continue
-		}
-		var op token.Token
-		switch {
-		case xr && ye && !xe && !yr:
-			op, expInstr, recvCounter = b.Op, yi, b.X
-		case yr && xe && !ye && !xr:
-			op, expInstr, recvCounter = flipCmp(b.Op), xi, b.Y
-		default:
-			continue
-		}
-		// evaluate "received OP expected" on the three orderings; proceed iff result == polarity
-		proceedLess := cmpHolds(op, -1) == g.Polarity
-		proceedEq := cmpHolds(op, 0) == g.Polarity
-		if proceedLess {
-			freshDetail = "counter guard at " + p.Pos(g.If.Pos()) + " lets a counter below the expected one through"
-			continue
-		}
-		freshOK = true
-		freshDetail = fmt.Sprintf("counter guard at %s: received<expected rejected, received==expected proceeds=%v", p.Pos(g.If.Pos()), proceedEq)
-		break
+		layouts[run.role] = l
 	}
-	r.Decide(freshOK, "C01.R4", fname+" freshness guard", p.Pos(open.Pos()), freshDetail,
-		freshDetail+": an already accepted frame can be replayed")
-	// committed value = received + k
-	for _, s := range commitStores {
-		if s.fld != recvNonceFld || s.val == nil {
+	if !r.Require(len(layouts[true].bytes) == len(layouts[false].bytes), "anchor-unresolved: the two roles send nonces of different length") {
+		return
+	}
+	r.Count("functions_analysed", len(cx.sealPath)+len(cx.openPath))
+	if cx.ctor != nil {
+		r.Count("worlds_built_by_constructor", 1)
+	}
+	if cx.recvCtr == nil {
+		r.Violation("C01.R4", kit.FuncName(cx.decrypt)+" counter commit", p.Pos(cx.decrypt.Pos()), "the receive path never advances a 64-bit counter field: every authenticated frame can be replayed")
+		return
+	}
+	for _, entry := range cx.openEntries {
+		cx.judgeRecvEntry(p, r, entry, layouts)
+	}
+	// write-set of the receive counter
+	nOther := 0
+	cover := cx.recvCover
+	for _, acc := range p.FieldAccessesOfKind(cx.recvCtr, kit.FieldStore, kit.FieldAddrUse) {
+		if cover != nil && cover.instrs[acc.Instr] && cx.confined(kit.TopLevel(acc.Fn), cx.openEntries) {
 			continue
 		}
-		ok := false
-		if b, isb := s.val.(*ssa.BinOp); isb && b.Op == token.ADD {
-			if k, isc := kit.ConstInt(b.Y); isc && k >= 1 && recvCounter != nil && sameExpr(b.X, recvCounter) {
-				ok = true
+		if isAtomicLoadUse(acc) {
+			continue
+		}
+		if acc.Kind == kit.FieldStore {
+			if k, ok := kit.ConstInt(acc.Val); ok && k == 0 && c02IsDerivation(p, kit.TopLevel(acc.Fn), 0) {
+				continue
 			}
 		}
-		r.Decide(ok, "C01.R4", fname+" committed counter value", p.Pos(s.in.Pos()),
-			"committed counter is the received counter plus a positive constant",
-			"the committed counter is not received+k (k>=1): the accepted frame, or older ones, remain acceptable")
+		nOther++
+		r.Violation("C01.R4", fmt.Sprintf("%s other writer of receive counter #%d", kit.FuncName(acc.Fn), nOther), p.Pos(acc.Instr.Pos()),
+			"the expected receive counter is written outside the authenticated commit of the receive path: a rewind makes already accepted frames acceptable again")
 	}
-	// R5
-	li := kit.Locks(fn)
-	for _, s := range commitStores {
-		if s.fld != recvNonceFld {
-			continue
-		}
-		ok := expInstr != nil && li.SameRegion(expInstr, s.in, cx.mu)
-		if ok {
-			// Open must be inside the region too, unless the commit precedes Open (then the
-			// check-and-commit region alone is atomic; R1 judges that ordering separately).
-			if _, held := li.HeldAt(open, cx.mu); !held && !kit.Precedes(s.in, open) {
-				ok = false
+	r.OK("C01.R4", "write-set of receive counter", p.Pos(cx.decrypt.Pos()), "%d writer(s) outside the receive path", nOther)
+}
+
+// isAtomicLoadUse: the address of the field is only handed to a sync/atomic load.
+func isAtomicLoadUse(acc kit.FieldAccess) bool {
+	if acc.Kind != kit.FieldAddrUse {
+		return false
+	}
+	c, ok := acc.Instr.(ssa.CallInstruction)
+	if !ok {
+		return false
+	}
+	cal := kit.CalleeOf(c)
+	return cal.Pkg == "sync/atomic" && strings.HasPrefix(cal.Name, "Load")
+}
+
+// confined: fn is one of the entries, or an in-repository function all of whose static callers
+// are confined (so its effects happen only as part of an entry's paths).
+func (cx *cryptoCtx) confined(fn *ssa.Function, entries []*ssa.Function) bool {
+	seen := map[*ssa.Function]bool{}
+	var rec func(f *ssa.Function, depth int) bool
+	rec = func(f *ssa.Function, depth int) bool {
+		for _, e := range entries {
+			if e == f {
+				return true
 			}
 		}
-		r.Decide(ok, "C01.R5", fname+" atomic check-open-commit", p.Pos(s.in.Pos()),
-			"expected-counter read, Open and commit are in one mutex region",
-			"the freshness check and the commit are not in one critical section with Open: two concurrent deliveries of one frame can both be accepted")
+		if seen[f] || depth > 8 {
+			return false
+		}
+		seen[f] = true
+		callers := cx.p.StaticCallers(f)
+		if len(callers) == 0 {
+			return false
+		}
+		for _, c := range callers {
+			if !rec(kit.TopLevel(c.Parent()), depth+1) {
+				return false
+			}
+		}
+		seen[f] = false
+		return true
 	}
+	return rec(fn, 0)
+}
+
+func (cx *cryptoCtx) judgeRecvEntry(p *kit.Program, r *kit.Report, entry *ssa.Function, layouts map[bool]sxLayout) {
+	fname := kit.FuncName(entry)
+	pos := p.Pos(entry.Pos())
+	if cx.recvCover == nil {
+		cx.recvCover = newSxCoverage()
+	}
+	worlds := cx.exploreRecv(entry, cx.recvCover, layouts)
+	nPaths := 0
+	for _, w := range worlds {
+		nPaths += len(w.run)
+		if !r.Require(w.inc == "", "model-incomplete: exploration of %s (initiator=%v, %s prefix): %s", fname, w.role, w.kind, w.inc) {
+			return
+		}
+	}
+	r.Count("receive_paths_explored", nPaths)
+
+	type storeVerdict struct {
+		field     *types.Var
+		pos       token.Pos
+		beforeOK  bool
+		noErrExit bool
+		errPos    string
+	}
+	stores := map[ssa.Instruction]*storeVerdict{}
+	var storeOrder []ssa.Instruction
+	authBad, reflectBad := "", ""
+	peerAccepts := 0
+	var freshBad, valueBad, commitBad, regionBad []string
+	seenClass := map[string]bool{}
+	add := func(list *[]string, s string) {
+		// one example per kind of failure: the text before the first '(' names the kind
+		class := s
+		if i := strings.Index(s, " ("); i > 0 {
+			class = s[:i]
+		}
+		if seenClass[class] {
+			return
+		}
+		seenClass[class] = true
+		*list = append(*list, s)
+	}
+	for _, w := range worlds {
+		wname := fmt.Sprintf("initiator=%v, %s prefix", w.role, w.kind)
+		for _, pt := range w.run {
+			openOK := -1
+			for i, ev := range pt.events {
+				if ev.kind == seOpen && ev.errNil && openOK < 0 {
+					openOK = i
+				}
+				if ev.kind != seStore || ev.instr == nil {
+					continue
+				}
+				sv := stores[ev.instr]
+				if sv == nil {
+					sv = &storeVerdict{field: ev.field, pos: ev.instr.Pos(), beforeOK: true, noErrExit: true}
+					stores[ev.instr] = sv
+					storeOrder = append(storeOrder, ev.instr)
+				}
+				if openOK < 0 {
+					sv.beforeOK = false
+				}
+				if pt.rejects() {
+					sv.noErrExit = false
+				}
+			}
+			if !pt.accepts() {
+				continue
+			}
+			if openOK < 0 && authBad == "" {
+				authBad = "a path returns a nil error without a successful AEAD.Open (" + wname + ")"
+			}
+			switch w.kind {
+			case "own":
+				if reflectBad == "" {
+					reflectBad = fmt.Sprintf("with initiator=%v a frame carrying this end's own send prefix (%s) is accepted", w.role, layouts[w.role])
+				}
+				continue
+			case "garbage":
+				continue
+			}
+			peerAccepts++
+			// R4 / R5 over the accepting path
+			var commits []sxEvent
+			for _, ev := range pt.events {
+				if ev.kind == seStore && ev.field == cx.recvCtr {
+					commits = append(commits, ev)
+				}
+			}
+			relDesc := func() string {
+				var parts []string
+				for _, s := range pt.relSeq {
+					parts = append(parts, fmt.Sprintf("received-expected(section %d)=%d", s.ver, pt.rel[s]))
+				}
+				return strings.Join(parts, ", ")
+			}
+			if len(commits) == 0 {
+				if len(pt.relSeq) >= 2 {
+					add(&regionBad, "a frame is accepted without a commit after the admission was re-evaluated in a later critical section ("+relDesc()+"): the first check used a stale counter, two concurrent deliveries of one frame are both accepted")
+				} else {
+					add(&commitBad, "a frame is accepted without advancing the expected counter ("+relDesc()+"): it can be replayed")
+				}
+				continue
+			}
+			for _, ev := range commits {
+				at := p.Pos(ev.instr.Pos())
+				if ev.cur == nil {
+					add(&regionBad, "the commit at "+at+" is not made while the session mutex is held exclusively")
+					continue
+				}
+				d, chosen := pt.rel[ev.cur]
+				switch {
+				case !chosen && len(pt.relSeq) > 0:
+					add(&regionBad, "the commit at "+at+" is in another critical section than the counter comparison that admitted the frame: two concurrent deliveries of one frame can both be accepted")
+					continue
+				case !chosen:
+					add(&freshBad, "a frame is accepted and committed at "+at+" without comparing its counter with the expected counter")
+					continue
+				case d < 0:
+					add(&freshBad, fmt.Sprintf("a frame whose counter is below the expected counter is accepted (e.g. %d below)", -d))
+				}
+				v := ev.val
+				okVal := false
+				if v.k == sxInt && v.form == siLin {
+					switch {
+					case v.sym.field == nil: // received + off
+						okVal = v.off >= 1
+					case v.sym == ev.cur: // expected + off = received - d + off
+						okVal = v.off-d >= 1
+					}
+				}
+				if !okVal {
+					add(&valueBad, "the value committed at "+at+" is not received+k with k>=1")
+				}
+			}
+		}
+	}
+	if !r.Require(peerAccepts > 0 || reflectBad != "", "anchor-unresolved: in the model %s never accepts a frame with the peer's prefix and a fresh counter", fname) {
+		return
+	}
+	// R1 / R2 per store
+	r.Count("session_state_stores_on_receive_path", len(storeOrder))
+	for _, in := range storeOrder {
+		sv := stores[in]
+		key := cx.storeKey(in, sv.field)
+		at := p.Pos(sv.pos)
+		r.Decide(sv.beforeOK, "C01.R1", key, at,
+			"on every path the store follows an AEAD.Open that returned a nil error",
+			"receive state is modified before/without successful AEAD.Open: a forged frame changes what is accepted afterwards")
+		r.Decide(sv.noErrExit, "C01.R2", key, at, "every path through the store returns a nil error",
+			"a path through this store returns an error (rejected input leaves a side effect)")
+	}
+	r.Decide(authBad == "", "C01.R1", fname+" accept implies authenticated", pos, "every accepting path contains a successful AEAD.Open", authBad+": unauthenticated data is accepted")
+	r.Decide(reflectBad == "", "C01.R3", fname+" direction guard", pos,
+		fmt.Sprintf("no path accepts a frame with this end's own send prefix (initiator sends %s, responder sends %s)", layouts[true], layouts[false]),
+		reflectBad+": a frame reflected back to its sender authenticates (same key, own send nonce) and is accepted")
+	r.Decide(len(freshBad) == 0, "C01.R4", fname+" freshness guard", pos,
+		"no accepting path has a received counter below the expected counter of its commit section",
+		strings.Join(freshBad, "; ")+": an already accepted frame can be replayed")
+	r.Decide(len(commitBad) == 0, "C01.R4", fname+" counter commit", pos, "every accepting path advances the expected counter", strings.Join(commitBad, "; "))
+	r.Decide(len(valueBad) == 0, "C01.R4", fname+" committed counter value", pos,
+		"the committed counter is the received counter plus a positive constant",
+		strings.Join(valueBad, "; ")+": the accepted frame, or older ones, remain acceptable")
+	r.Decide(len(regionBad) == 0, "C01.R5", fname+" atomic check-open-commit", pos,
+		"the admitting comparison and the commit use the same critical section",
+		strings.Join(regionBad, "; "))
 }
 
 func flipCmp(op token.Token) token.Token {
